@@ -47,3 +47,29 @@ End Sort.
 Definition file_name (rs : rstate) (f : option N) : option str :=
   match f with None => None | Some i => nth_error (imported rs) (N.to_nat i) end.
 Definition loc_key (rs : rstate) (l : loc) : okey := (file_name rs (lfile l), lrange l).
+
+(* DiagnosticItem::sort_for_output (fix 3112ad2): after the stable sort, an item that agrees with an earlier one
+   in every field is dropped.  `same` is that agreement (level, title, location, messages, related). *)
+Section Dedup.
+  Context {A : Type} (same : A -> A -> bool).
+  Fixpoint dedup_from (seen : list A) (l : list A) : list A :=
+    match l with
+    | [] => []
+    | x :: l' => if existsb (same x) seen then dedup_from seen l' else x :: dedup_from (x :: seen) l'
+    end.
+  Definition dedup_items (l : list A) : list A := dedup_from [] l.
+End Dedup.
+Definition sort_for_output {A} (key : A -> okey) (same : A -> A -> bool) (l : list A) : list A :=
+  dedup_items same (sort_items key l).
+
+(* an output item as the library returns it: file name, range, severity, title, description *)
+Record oitem := mko { ofile : option str; orange : range; osev : N; otitle : str; odesc : str }.
+Definition okey_of (o : oitem) : okey := (ofile o, orange o).
+Definition ostr_eqb (a b : option str) : bool := match ostr_cmp a b with Eq => true | _ => false end.
+Definition range_eqb (a b : range) : bool :=
+  (N.eqb (line (rstart a)) (line (rstart b)) && N.eqb (column (rstart a)) (column (rstart b)) && N.eqb (raw (rstart a)) (raw (rstart b))
+   && N.eqb (line (rend a)) (line (rend b)) && N.eqb (column (rend a)) (column (rend b)) && N.eqb (raw (rend a)) (raw (rend b)))%bool.
+Definition oitem_same (a b : oitem) : bool :=
+  (ostr_eqb (ofile a) (ofile b) && range_eqb (orange a) (orange b) && N.eqb (osev a) (osev b)
+   && str_eqb (otitle a) (otitle b) && str_eqb (odesc a) (odesc b))%bool.
+Definition output_order (l : list oitem) : list oitem := sort_for_output okey_of oitem_same l.
